@@ -1535,10 +1535,17 @@ class ConeBeamGeometry(DivergentBeamGeometry, AxisOrientedGeometry):
         apart = part.byaxis[0]
         dpart = part.byaxis[1:]
 
+        if isinstance(self.detector, SphericalDetector):
+            curvature = (self.detector.radius, self.detector.radius)
+        elif isinstance(self.detector, CylindricalDetector):
+            curvature = (self.detector.radius, None)
+        else:
+            curvature = None
+
         return ConeBeamGeometry(apart, dpart,
                                 src_radius=self.src_radius,
                                 det_radius=self.det_radius,
-                                det_curvature_radius=self.det_curvature_radius,
+                                det_curvature_radius=curvature,
                                 pitch=self.pitch,
                                 axis=self.axis,
                                 offset_along_axis=self.offset_along_axis,
